@@ -818,6 +818,36 @@ static void checkArrays(int dx, int dy, int dz, vh::Rng &r)
     vh::count("multislice_views");
     vh::maxi("multislice_max_slices", dz);
   }
+  // ---- MultiSlice over slices that are not one layer thick: by definition only layer 0 of the slice that z names
+  //      is ever read. (a) every slice a SubBox view (lower.z = z) of the one base volume, which does not clamp;
+  //      (b) slices 2..3 layers thick whose other layers hold ids that belong to no cell.
+  {
+    std::vector<std::shared_ptr<Array3D<int> > > views, thick;
+    for (int z = 0; z < dz; ++z) {
+      views.push_back(std::make_shared<SubBoxArray3D<int> >(base, box3i(vec3i(0, 0, z), vec3i(dx, dy, dz))));
+      int k = 2 + (z & 1);
+      std::shared_ptr<ActualArray3D<int> > t = std::make_shared<ActualArray3D<int> >(vec3i(dx, dy, k));
+      for (int l = 0; l < k; ++l)
+        for (int y = 0; y < dy; ++y)
+          for (int x = 0; x < dx; ++x)
+            t->set(vec3i(x, y, l), l == 0 ? g.at(x, y, z) : -1000 - l);
+      thick.push_back(t);
+    }
+    MultiSliceArray3D<int> mv(views), mt(thick);
+    VH_CHECK(mv.size().z == dz && mt.size().z == dz && mv.size().x == dx && mt.size().y == dy, "C17:MultiSlice:size", "size() over thick/view slices: " + sv(mv.size()) + " / " + sv(mt.size()), ctx);
+    bool done = false;
+    for (int z = -2; z <= dz + 1 && !done; ++z)
+      for (int y = 0; y < dy && !done; ++y)
+        for (int x = 0; x < dx && !done; ++x) {
+          int exp = g.at(x, y, z), gv = mv.get(vec3i(x, y, z)), gt = mt.get(vec3i(x, y, z));
+          if (gv != exp || gt != exp) {
+            vh::violation(gv != exp ? "C17:MultiSlice:get:not-layer-0-of-view-slice" : "C17:MultiSlice:get:not-layer-0-of-thick-slice",
+                          "get" + sv(vec3i(x, y, z)) + " returned cell id " + std::to_string(gv != exp ? gv : gt) + " expected " + std::to_string(exp) + " (layer 0 of slice " + std::to_string(clampi(z, 0, dz - 1)) + ")", ctx);
+            done = true;
+          }
+        }
+    vh::count("multislice_thick_or_view_slices", 2 * dz);
+  }
   // ---- Repeater, as defined: w' = w mod R per axis, mirrored when (w / R) is odd; get = actual(w')
   {
     vec3i Rs[3] = {vec3i(2 * dx, 2 * dy + 1, 3 * dz), vec3i(dx, dy, dz), vec3i(dx > 1 ? dx - 1 : 1, dy + 2, dz > 2 ? dz - 2 : 1)};
